@@ -185,3 +185,16 @@ def numeric_key_maps():
                 out.append(bytes([131, 116, 0, 0, 0, 3]) + a + bytes([106]) + b + bytes([106]) + c + bytes([106]))
             out.append(bytes([131, 116, 0, 0, 0, 2, 108, 0, 0, 0, 1]) + a + bytes([106, 97, 1, 108, 0, 0, 0, 1]) + b + bytes([106, 97, 2]))
     return out
+
+
+def late_bombs():
+    """a large honest prefix, then nested headers that each announce ten million elements with almost nothing behind
+    them: a reservation capped by the length of the whole frame instead of by what is left shows as a total far out of
+    proportion"""
+    out = []
+    prefix = bytes([131, 104, 2, 109]) + struct.pack(">I", 200000) + bytes(200000)
+    c4 = struct.pack(">I", 10000000)
+    for hdr in (bytes([105]) + c4, bytes([108]) + c4, bytes([116]) + c4):
+        for depth in (48, 96):
+            out.append(prefix + hdr * depth)
+    return out
